@@ -54,6 +54,18 @@ func putFanoutRule(o *Ob) {
 			}
 		}
 		o.Check(has, "fanout-msg", "the message handed to subscribers does not carry the alert", sel)
+		// … and it is the version that was stored (after merging with the stored one), not the raw submission:
+		// subscribers (dispatcher, inhibitor) must see the end time the store holds
+		for _, fs := range e.StoresToField(fn, "am/provider.Alert", "Data") {
+			stored := e.ArgV(set, 1)
+			same := fs.Val == stored
+			if !same {
+				// the same set of possible values at both places
+				a, b := e.ValStrs(fn, e.ValsUnder(nil, fs.Val)), e.ValStrs(fn, e.ValsUnder(nil, stored))
+				same = strings.Join(a, "|") == strings.Join(b, "|")
+			}
+			o.Check(same, "fanout-stored-version", "subscribers are handed "+e.X(fn, fs.Val)+" while "+e.X(fn, stored)+" is stored: after a merge the inhibitor and the dispatcher would work with an end time the store does not hold", fs)
+		}
 	}
 	ls := e.Loops(fn)
 	var inner, outer *Loop
